@@ -126,7 +126,7 @@ void PPPoE::write_serialization(uint8_t* buffer, uint32_t total_sz) {
 }
 
 void PPPoE::add_tag(const tag& option) {
-    tags_size_ += static_cast<uint16_t>(option.data_size() + sizeof(uint16_t) * 2);
+    tags_size_ += static_cast<uint32_t>(option.data_size() + sizeof(uint16_t) * 2);
     tags_.push_back(option);
 }
 
